@@ -287,3 +287,40 @@ def _(v):
         v.prove("above_the_bound_is_not_sane", es._result_is_sane(c0, np.array([2.1, 1.0, 0.5])) is False)
         v.prove("admissible_state_is_sane", es._result_is_sane(c0, np.array([0.5, 0.5, 0.75])) is True and es._result_is_sane(c0, np.array([0.0, 1e9, 1.0])) is True)
         v.prove("nan_is_not_sane", es._result_is_sane(c0, np.array([np.nan, 1.0, 0.5])) is False and es._result_is_sane(c0, np.array([np.nan] * 3)) is False)
+
+
+@harness("C08", "single_equilibrium.solve_equilibrium", functions=["chempy._equilibrium:solve_equilibrium", "chempy._equilibrium:_solve_equilibrium_coord", "chempy._equilibrium:_get_rc_interval",
+                                                                 "chempy._equilibrium:equilibrium_residual"], kind="shape-bounded", div_mode="assume", samples=0, max_paths=6000)
+def _(v):
+    """solve_equilibrium around the external root finder: brentq is replaced by its contract (returns SOME coordinate inside the bracket at which
+    the function it was given vanishes). Then the returned state is c0 + rc*nu (spectators untouched), non-negative, and has Q = K"""
+    import scipy.optimize
+    from chempy._equilibrium import solve_equilibrium
+    nus = [v.int("nu%d" % i, lo=-3, hi=3) for i in range(3)]
+    v.assume(SP.conj([nu != 0 for nu in nus]))
+    cs = [v.real("c%d" % i, lo=0, hi=100) for i in range(4)]
+    K = v.real("K", lo=1e-6, hi=1e6)
+    seen = {}
+
+    def brentq_contract(v_, f, a, b, args=(), **kw):
+        rc = v_.fresh("rc", "real")
+        v_.assume(SP.conj([rc >= a, rc <= b]))
+        res = v_.interp.call(f, (rc,) + tuple(args))
+        seen.update(a=a, b=b, rc=rc, res=res)
+        v_.assume(res == 0)
+        return rc
+    v.contract(scipy.optimize.brentq, "brentq", None, brentq_contract)
+    out = v.run(solve_equilibrium, cs, nus + [0], K)
+    if not out.returned:
+        v.prove("refusal_is_a_ValueError", out.raised(ValueError))
+        return
+    x = out.value
+    rc = seen["rc"]
+    v.prove("state_moved_along_the_stoichiometry", SP.conj([v.eq(x[i], cs[i] + rc * nus[i]) for i in range(3)]))
+    v.prove("spectator_untouched", v.eq(x[3], cs[3]))
+    for i in range(3):
+        v.prove("concentration_%d_non_negative" % i, x[i] >= 0)
+    q = 1
+    for i in range(3):
+        q = q * SP.spow(x[i], nus[i])
+    v.prove_identity("quotient_equals_constant", seen["res"], K - q)
